@@ -331,10 +331,10 @@ def extract_inst(w: World, rec: dict) -> dict:
         for _, wk in workers.items()
     ]
     nodes, edges = [], []
-    for gname in dict.fromkeys(t.task_graph for t in tasks):
+    for gname in dict.fromkeys([t.task_graph for t in tasks] + [t.task_graph for _, t in w.task_list]):
         g = w.workload.get_task_graph(gname)
         for n in g.get_nodes():
-            nodes.append({"uniq": n.unique_name, "name": n.name, "ts": n.timestamp, "graph": n.task_graph})
+            nodes.append({"uniq": n.unique_name, "name": n.name, "ts": n.timestamp, "graph": n.task_graph, "state": n.state.name})
             for c in g.get_children(n):
                 edges.append([n.unique_name, c.unique_name])
     f = w.spec["flags"]
@@ -546,20 +546,9 @@ def _intervals(w: World, rec: dict):
             out.append((task, cp.worker_id, w.now, w.now + _t(task.remaining_time), cp.execution_strategy))
         elif st == "SCHEDULED":
             cp = task.current_placement
-            out.append((task, cp.worker_id, _t(cp.placement_time), _t(cp.placement_time) + _t(cp.execution_strategy.runtime), cp.execution_strategy))
+            s0 = max(_t(cp.placement_time), w.now)  # a due start happens now at the earliest
+            out.append((task, cp.worker_id, s0, s0 + _t(cp.execution_strategy.runtime), cp.execution_strategy))
     return out
-
-
-def reachable_state(w: World, rec: dict) -> bool:
-    """Generator invariant that needs the real frontier to evaluate: in retracting mode the
-    simulator re-offers every SCHEDULED task (its estimated completion `now + slowest` is always
-    inside `now + lookahead + slowest`) unless the generator drew a planned-ahead child whose
-    parent estimate pushes it out of the lookahead — a state no run reaches with fixed flags
-    and exact runtimes.  Such cases still take part in the model comparison, not in the oracles."""
-    if not w.spec["flags"]["retract"]:
-        return True
-    offered = {t.unique_name for t in rec.get("offered", [])}
-    return all(t.unique_name in offered for _, t in w.task_list if t.state.name == "SCHEDULED")
 
 
 def oracle_c10(w: World, rec: dict) -> list[str]:
@@ -650,7 +639,7 @@ def oracle_c11(w: World, rec: dict) -> list[str]:
                     bad.append("child starts before the expected finish of a RUNNING parent")
             elif st == "SCHEDULED":
                 cp = par.current_placement
-                if _t(p.placement_time) < _t(cp.placement_time) + _t(par.remaining_time):
+                if _t(p.placement_time) < max(_t(cp.placement_time), w.now) + _t(par.remaining_time):
                     bad.append("child starts before the expected finish of a SCHEDULED parent")
     return sorted(set(bad))
 
@@ -985,7 +974,7 @@ def adversarial_precedence(w: World, rec: dict) -> list[str]:
         if not cx or not cs:
             continue
         for par in g.get_parents(c):
-            if not any(par is t for t in tasks):
+            if not any(par is t for t in tasks) and par.state.name not in ("SCHEDULED", "RUNNING"):
                 continue
             mm = m.copy()
             mm.Params.LogToConsole = 0
@@ -993,12 +982,17 @@ def adversarial_precedence(w: World, rec: dict) -> list[str]:
             mm.Params.Threads = 1
             vs = mm.getVars()
             mm.addConstr(gp.quicksum(vs[i] for i in cx) == 1)
-            if par.state.name == "RUNNING":
-                bound = w.now + _t(par.remaining_time)
+            if par.state.name == "RUNNING" or not any(par is t for t in tasks):
+                # a parent the model treats as fixed (RUNNING) or does not see at all (SCHEDULED
+                # and not re-offered): the child must not start before its expected finish
+                if par.state.name == "RUNNING":
+                    bound = w.now + _t(par.remaining_time)
+                else:
+                    bound = max(_t(par.current_placement.placement_time), w.now) + _t(par.remaining_time)
                 mm.setObjective(vs[cs[0]], GRB.MINIMIZE)
                 mm.optimize()
                 if mm.Status == GRB.OPTIMAL and mm.ObjVal < bound - 1e-6:
-                    found.append(f"feasible point: {c.unique_name} starts at {mm.ObjVal} before RUNNING parent finishes at {bound}")
+                    found.append(f"feasible point: {c.unique_name} starts at {mm.ObjVal} before {par.state.name} parent finishes at {bound}")
                 continue
             px = x_indices(par)
             ps = var_index(f"{par.unique_name}_start")
@@ -1130,13 +1124,31 @@ def gen_world(rng, kind: str) -> dict:
             fit = None
             if all(s == "COMPLETED" for s in pstates):
                 if kind == "c14":
-                    st = "RUNNING" if r < 0.15 else ("COMPLETED" if r < 0.25 and ti < k - 1 else "RELEASED")
+                    st = (
+                        "RUNNING" if r < 0.15 else "COMPLETED" if r < 0.25 and ti < k - 1
+                        else "SCHEDULED" if r < 0.42 else "RELEASED"
+                    )
                 else:
                     st = "COMPLETED" if r < 0.2 and ti < k - 1 else "RUNNING" if r < 0.4 else "SCHEDULED" if r < 0.55 else "RELEASED"
-            elif all(s in ("COMPLETED", "RUNNING", "SCHEDULED") for s in pstates) and r < 0.25 and kind != "c14":
-                st = "SCHEDULED"  # planned ahead by an earlier invocation
+            elif (
+                all(s in ("COMPLETED", "RUNNING", "SCHEDULED") for s in pstates)
+                and r < 0.25
+                # a task planned ahead by an earlier invocation.  Under retraction the real frontier
+                # re-offers it only while its parents' estimates stay inside the lookahead; with the
+                # largest lookahead (30 > sum of all runtimes) that holds for every generated graph,
+                # so the state is one a run can reach and every SCHEDULED task must be re-offered.
+                and (not flags["retract"] or flags["lookahead"] == 30)
+            ):
+                st = "SCHEDULED"
             else:
                 st = "VIRTUAL"
+            if st == "SCHEDULED" and kind == "c14":
+                # keep the enumerable instances productive: finding C10-ILP-1 (crash on an
+                # incompatible pair of a SCHEDULED task) is exercised by the other kinds
+                if not all(
+                    all(totals[wi].get(rr, 0) >= q for rr, q in s_["req"]) for wi in range(len(order)) for s_ in t["strats"]
+                ):
+                    st = "RELEASED" if all(s == "COMPLETED" for s in pstates) else "VIRTUAL"
             release = max(0, now - rng.randint(0, 3))
             plan_ = None
             if st in ("RUNNING", "SCHEDULED", "COMPLETED"):
@@ -1150,8 +1162,9 @@ def gen_world(rng, kind: str) -> dict:
                             if fits(wi, s_["req"], now, now + remaining):
                                 opts.append((wi, si, started, remaining))
                         elif st == "SCHEDULED":
-                            at = now + rng.randint(1, 5)
-                            if fits(wi, s_["req"], at, at + rt):
+                            # placement time in the past (start due, not performed yet), exactly now, or later
+                            at = max(0, now + rng.choice([-2, -1, 0, 0, 1, 2, 3, 5]))
+                            if fits(wi, s_["req"], max(at, now), max(at, now) + rt):
                                 opts.append((wi, si, at, rt))
                         else:
                             if all(totals[wi].get(rr, 0) >= q for rr, q in s_["req"]):
@@ -1174,8 +1187,9 @@ def gen_world(rng, kind: str) -> dict:
                     book(wi, t["strats"][si]["req"], now, now + rem)
                     t["prev"] = {"w": wi, "s": si, "time": at, "sched_at": t["release"], "remaining": rem}
                 elif st == "SCHEDULED":
-                    book(wi, t["strats"][si]["req"], at, at + rem)
-                    t["prev"] = {"w": wi, "s": si, "time": at, "sched_at": max(0, now - 1)}
+                    book(wi, t["strats"][si]["req"], max(at, now), max(at, now) + rem)
+                    t["release"] = min(t["release"], at)
+                    t["prev"] = {"w": wi, "s": si, "time": at, "sched_at": min(max(0, now - 1), at)}
                 else:
                     t["prev"] = {"w": wi, "s": si, "time": t["release"], "sched_at": t["release"], "finish": now}
             # deadline
@@ -1287,6 +1301,46 @@ def corpus(kind: str) -> list[dict]:
             "uuid_seed": 4,
         }
     )
+    # retraction: T1 was SCHEDULED by an earlier invocation, then T2 and T3 arrive; dropping T1
+    # lets two graphs finish (T2@1, T3@5), keeping it only one
+    out.append(
+        {
+            "now": 0,
+            "pools": one_pool(1),
+            "graphs": [
+                {"name": "G0", "tasks": [task("T1", "SCHEDULED", [st(8)], 10, prev={"w": 0, "s": 0, "time": 1, "sched_at": 0})], "edges": []},
+                {"name": "G1", "tasks": [task("T2", "RELEASED", [st(3)], 5)], "edges": []},
+                {"name": "G2", "tasks": [task("T3", "RELEASED", [st(3)], 10)], "edges": []},
+            ],
+            "flags": dict(flags, retract=True),
+            "allowed0": [],
+            "uuid_seed": 5,
+        }
+    )
+    # retraction + lookahead: the parent was SCHEDULED for t=5 by an earlier invocation; the
+    # scheduler runs again before, exactly at and after t=5 (start due, not performed yet) and is
+    # offered the VIRTUAL child ahead of its release together with an unrelated arrival
+    for k, now in enumerate((3, 5, 7)):
+        out.append(
+            {
+                "now": now,
+                "pools": one_pool(4),
+                "graphs": [
+                    {
+                        "name": "G0",
+                        "tasks": [
+                            task("P", "SCHEDULED", [st(10)], 60, prev={"w": 0, "s": 0, "time": 5, "sched_at": 0}),
+                            task("C", "VIRTUAL", [st(3)], 60, release=None),
+                        ],
+                        "edges": [[0, 1]],
+                    },
+                    {"name": "G1", "tasks": [task("O", "RELEASED", [st(2)], 60, release=now)], "edges": []},
+                ],
+                "flags": dict(flags, retract=True, lookahead=30),
+                "allowed0": [],
+                "uuid_seed": 6 + k,
+            }
+        )
     return out
 
 
@@ -1439,9 +1493,8 @@ def run(prop: str, chk, rng, tier: str) -> list[str]:
             if len(rec["placements"]) != 0 or rec["n_models"] != 0:
                 disagreements.append(f"[ilp case {wi}] nothing offered but placements/model produced")
         # oracles on the real output
-        if not reachable_state(w, rec):
-            chk.count("ilp:unreachable-retract-state (oracles skipped)")
-            continue
+        if f["retract"] and any(t.state.name == "SCHEDULED" and t.unique_name not in {o.unique_name for o in rec.get("offered", [])} for _, t in w.task_list):
+            chk.count("ilp:retract-with-SCHEDULED-task-not-re-offered")
         if prop in ("C10", "C11", "C12"):
             for b in oracle_for(prop, w, rec):
                 chk.violation(f"ilp {prop}: {b}", {"planner": NAME, "prop": prop, "spec": spec, "what": b})
@@ -1481,8 +1534,6 @@ def search(prop: str, chk, rng, tier: str) -> None:
         try:
             w, rec, case = run_case(spec, False)
         except Exception:
-            continue
-        if not reachable_state(w, rec):
             continue
         for p_ in ("C10", "C11", "C12"):
             if p_ != prop:
